@@ -59,6 +59,11 @@ func checkProgram(src string, nontrivial bool) {
 			return
 		}
 		fns, envs := lib.FnEnvs(c.BC)
+		for i := range envs {
+			// C02 states no upper bound on the operand-stack height (running out of the fixed VM stack is
+			// an error through RunContext: properties C05/C06)
+			envs[i].Limit = 1 << 30
+		}
 		tables := make([]map[int]int, len(fns))
 		fnIdx := map[*tengo.CompiledFunction]int{}
 		ok := true
@@ -73,9 +78,9 @@ func checkProgram(src string, nontrivial bool) {
 				res.Violate(lib.Violation{Signature: "ill-formed-function:" + strings.Fields(bad)[0], Stream: "verify",
 					Input: replayInput{Source: src, Fn: i, Insts: key}, Observed: bad,
 					Expected: "jumps on instruction boundaries, operands in range, one stack height per instruction, no underflow, every path ends in RET/SUSPEND",
-					Oracle: "harness verifier (lib/verify.go)"})
+					Oracle:   "harness verifier (lib/verify.go)"})
 			}
-			if drv != nil {
+			if drv != nil && len(f.Instructions) < 6000 { // larger functions: harness verifier only (the model's tables are lists)
 				ans, err := drv.Ask(lib.VerifyLine(envs[i], f.Instructions))
 				if err != nil {
 					fatal(err)
@@ -200,6 +205,62 @@ func skeletons(depth int, inLoop, inFunc bool, emit func(string)) {
 	}
 }
 
+// boundaryPrograms: operand-width boundaries (one-byte local / free / argument operands, two-byte
+// constant / element-count operands, four-byte jump operands beyond 64 KiB).
+func boundaryPrograms() []string {
+	var out []string
+	// k captured variables: 200 locals of an outer function and k-200 of a middle one, all read by the
+	// innermost literal (so no function exceeds the local-variable limit)
+	for _, k := range []int{254, 255, 256, 257} {
+		var sb strings.Builder
+		sb.WriteString("f := func() {\n")
+		for i := 0; i < 200; i++ {
+			fmt.Fprintf(&sb, "v%d := %d\n", i, i)
+		}
+		sb.WriteString("m := func() {\n")
+		for i := 200; i < k; i++ {
+			fmt.Fprintf(&sb, "v%d := %d\n", i, i)
+		}
+		sb.WriteString("g := func() { return ")
+		for i := 0; i < k; i++ {
+			if i > 0 {
+				sb.WriteString(" + ")
+			}
+			fmt.Fprintf(&sb, "v%d", i)
+		}
+		sb.WriteString(" }\nreturn g()\n}\nreturn m()\n}\nout := f()\n")
+		out = append(out, sb.String())
+	}
+	// k locals
+	for _, k := range []int{255, 256, 257} {
+		var sb strings.Builder
+		sb.WriteString("f := func() {\n")
+		for i := 0; i < k; i++ {
+			fmt.Fprintf(&sb, "v%d := %d\n", i, i)
+		}
+		fmt.Fprintf(&sb, "return [v0, v%d]\n}\nout := f()\n", k-1)
+		out = append(out, sb.String())
+	}
+	// k parameters / arguments
+	for _, k := range []int{255, 256} {
+		var ps, as []string
+		for i := 0; i < k; i++ {
+			ps = append(ps, fmt.Sprintf("p%d", i))
+			as = append(as, "1")
+		}
+		out = append(out, "f := func("+strings.Join(ps, ", ")+") { return p0 + p"+fmt.Sprint(k-1)+" }\nout := f("+strings.Join(as, ", ")+")\n")
+	}
+	// jumps across the 64 KiB mark: in main and inside a function literal
+	var body strings.Builder
+	for i := 0; i < 11500; i++ {
+		body.WriteString("x = 1\n")
+	}
+	out = append(out, "x := 0\nc := false\nif c {\n"+body.String()+"}\ny := 2\n")
+	out = append(out, "x := 0\nf := func(c) {\nif c {\n"+body.String()+"}\nreturn 7\n}\ny := f(false)\n")
+	out = append(out, "x := 0\nfor i := 0; i < 2; i++ {\nif i == 5 {\n"+body.String()+"}\n}\n")
+	return out
+}
+
 func main() {
 	f := lib.ParseFlags()
 	res = lib.NewResult("C02", f)
@@ -219,6 +280,10 @@ func main() {
 	}
 	lib.RunProbes(res, "C02", f.Known)
 	for _, src := range corpus {
+		checkProgram(src, true)
+	}
+	for _, src := range boundaryPrograms() {
+		res.Dist("boundary-programs")
 		checkProgram(src, true)
 	}
 	rng := lib.NewRNG(f.Seed)
